@@ -60,6 +60,17 @@ const UNI: &[char] = &['a', 'b', 'c', '.', '/', 'j', 's', ':', ' ', '-', 'é', '
 pub fn uni_string(rng: &mut Rng, maxlen: u64) -> String {
     (0..rng.below(maxlen + 1)).map(|_| *rng.pick(UNI)).collect()
 }
+/// an embedded source text: a few lines of mixed-width characters, its byte length next to a power of two
+/// (2^5 .. 2^9), so that block / truncation boundaries fall inside characters as often as between them
+pub fn gen_content(rng: &mut Rng) -> String {
+    let target = boundary_len(rng, 5, 9);
+    let mut t = String::new();
+    while t.len() < target {
+        t.push(*rng.pick(UNI));
+        if rng.chance(1, 30) { t.push('\n'); }
+    }
+    t
+}
 const SRC_PREFIX: &[&str] = &["", "", "", "", "/", "http:", "https:", "HTTP:", "Https:", "http", "ht", "webpack:///", "~/", "./", "../", "//"];
 /// a source name: an optional scheme-like or path prefix followed by mixed-width characters
 pub fn gen_src_name(rng: &mut Rng) -> String {
